@@ -1,5 +1,6 @@
 SPECIFICATION Spec
-CONSTANTS Cases <- MThorough
+CONSTANTS Devs = {}
+          Cases <- MThorough
           GF = 4
           FPKeys = {}
 INVARIANTS StackIsRecursive EmitSafe EmitOnce NoFalseNegative ChainShape CountRight
